@@ -326,6 +326,10 @@ def check_fine(case, ctx):
             ctx.label("no-interior-knot")
             return
         j = inner[(idx // 7) % len(inner)]
+        rep = [i for i in inner if kv[i - 1] == kv[i] or kv[i + 1] == kv[i]]
+        if rep and idx % 2:
+            j = rep[(idx // 7) % len(rep)]          # one copy of a repeated knot is moved away from its twin
+            ctx.label("copy-of-a-repeated-knot-moved")
         new = None
         for sg in (case["sign"], -case["sign"]):
             y = _bump(kv[j], step, sg, tol)
